@@ -288,3 +288,86 @@ func VX_C11_FormIndependent(args []int) {
 	vxAssert(generic.Get("s") == s0, "decoded url.Values are independent of the input buffer")
 	vxCover("c11.form.independent")
 }
+
+func init() { vxRegister("VX_C11_FormTwoTypes", VX_C11_FormTwoTypes) }
+
+func vxLocalTypeA(c FormCodec, in []byte) (string, error) {
+	type T struct {
+		X string `form:"x"`
+	}
+	var d T
+	err := c.Unmarshal(in, &d)
+	return d.X, err
+}
+
+func vxLocalTypeB(c FormCodec, in []byte) (string, string, error) {
+	type T struct {
+		P string `form:"p"`
+		Q string `form:"q"`
+		R string `form:"r"`
+	}
+	var d T
+	err := c.Unmarshal(in, &d)
+	if err == nil {
+		b, e2 := c.Marshal(&d)
+		var d2 T
+		if e2 != nil || c.Unmarshal(b, &d2) != nil || d2 != d {
+			return "", "", fmt.Errorf("re-encoding does not round trip")
+		}
+	}
+	return d.P, d.R, err
+}
+
+// VX_C11_FormTwoTypes: the form codec handles several struct types in one
+// process: two unnamed struct types and two function-local types of the same
+// name, one after the other. Each decodes (and re-encodes) by its own field
+// tags whatever type was handled before; nothing panics. args: order(0 small type first, 1 large first)
+func VX_C11_FormTwoTypes(args []int) {
+	c := FormCodec{}
+	v := vxString("v", 1)
+	vxAssume(v[0] >= 'a' && v[0] <= 'z')
+	defer func() {
+		if r := recover(); r != nil {
+			if s, ok := r.(string); ok && len(s) > 9 && s[:9] == "VXASSERT:" {
+				panic(r)
+			}
+			if _, ok := r.(vxAssumeFailed); ok {
+				panic(r)
+			}
+			vxFail("a panic leaves the form codec when it handles a second struct type")
+		}
+	}()
+	small := func() {
+		var a struct {
+			X string `form:"x"`
+		}
+		vxAssert(c.Unmarshal([]byte("x="+v), &a) == nil && a.X == v, "an unnamed struct type decodes by its own tags whatever type was decoded before")
+		x, err := vxLocalTypeA(c, []byte("x="+v))
+		vxAssert(err == nil && x == v, "a function-local type decodes by its own tags whatever type was decoded before")
+	}
+	large := func() {
+		var b struct {
+			P string `form:"p"`
+			Q string `form:"q"`
+			R string `form:"r"`
+		}
+		vxAssert(c.Unmarshal([]byte("p=1&q=2&r="+v), &b) == nil && b.P == "1" && b.Q == "2" && b.R == v, "a second unnamed struct type decodes by its own tags")
+		out, err := c.Marshal(&b)
+		var b2 struct {
+			P string `form:"p"`
+			Q string `form:"q"`
+			R string `form:"r"`
+		}
+		vxAssert(err == nil && c.Unmarshal(out, &b2) == nil && b2 == b, "and round trips")
+		p, r, err := vxLocalTypeB(c, []byte("p=1&q=2&r="+v))
+		vxAssert(err == nil && p == "1" && r == v, "a second function-local type of the same name decodes by its own tags")
+	}
+	if args[0] == 0 {
+		small()
+		large()
+	} else {
+		large()
+		small()
+	}
+	vxCover("c11.form.twotypes")
+}
